@@ -31,6 +31,10 @@ class FunctionVC(Executor):
         self.writes = []
         self.paths = []
         self.dropped = set()
+        from . import engine as _engine
+        from .rewrite import HeapRewriter
+        region = getattr(self.model.decl, "REGION_ATTRS", [])
+        _engine.VIEW_NORMALIZER[0] = lambda term, st: HeapRewriter(st.pc, region, st.fresh).rw(term)
 
     # ------------------------------------------------------------------ hooks used by the executor
     def loop_ordinal(self, node):
@@ -319,7 +323,15 @@ class FunctionVC(Executor):
         rty = contract.get("returns", ANY)
         result = None
         ens = list(contract.get("ensures", []))
-        if contract.get("fresh_result"):
+        if contract.get("pure") and recv is not None and not contract.get("modifies"):
+            # a PURE method of an immutable object: the result is the object model's uninterpreted function of
+            # (self, args) -- every call site and every spec mention share the term; the ensures are facts about it
+            allargs = list(args) + [kwargs[k] for k in sorted(kwargs)]
+            t = smt.meth_func(name.split(".")[-1], len(allargs))(recv.t, *[to_v(a, post) for a in allargs])
+            result = BVal(t == smt.TRUE) if rty == BOOL else IVal(smt.ival(t)) if rty == INT else Val(t, rty)
+            if not self.pure_depth:
+                post.assume(*type_facts(result, post))
+        elif contract.get("fresh_result"):
             result = alloc(post, "res", rty)
             post.assume(*type_facts(result, post))
         elif ens and self.is_result_eq(ens[0]) and not contract.get("modifies"):
